@@ -229,7 +229,10 @@ class DFXPReader(BaseReader):
                 # content of the tag variable at this point should be a plain
                 # unicode string with xml entities already converted to unicode
                 # characters.
-                tag_text = result.groups()[0]
+                # the pattern stops at the first line break: keep the words of
+                # text that is wrapped over several source lines
+                tag_text = ' '.join(
+                    [result.groups()[0]] + tag[result.end():].split())
                 node = CaptionNode.create_text(
                     tag_text, layout_info=tag.layout_info)
                 self.nodes.append(node)
